@@ -49,6 +49,9 @@ pub(crate) struct FoldFSM {
     ctor_queue: SubTraceLoreCtorQueue,
     result_lore: FoldLore,
     state_handler: CtxStateHandler,
+    /// positions (in the merged trace) of the stream values whose iteration has been started (verification probe only)
+    #[cfg(feature = "verif_probes")]
+    started_iterations: Vec<TracePos>,
 }
 
 impl FoldFSM {
@@ -69,6 +72,8 @@ impl FoldFSM {
     }
 
     pub(crate) fn meet_iteration_start(&mut self, value_pos: TracePos, data_keeper: &mut DataKeeper) -> FSMResult<()> {
+        #[cfg(feature = "verif_probes")]
+        self.started_iterations.push(value_pos);
         let prev_pos = data_keeper.new_to_prev_pos.get_by_left(&value_pos);
         let current_pos = data_keeper.new_to_current_pos.get_by_left(&value_pos);
 
@@ -150,6 +155,27 @@ impl FoldFSM {
                 "fold_end_leftover_lore",
                 format!("prev={} current={}", self.prev_fold.lore.len(), self.current_fold.lore.len()),
             );
+            // lore left over for a value whose iteration WAS started has no explanation in "the merged execution
+            // did not visit it": the lookup at the iteration start must have missed it
+            let started = |new_pos: Option<&TracePos>| new_pos.map(|p| self.started_iterations.contains(p)).unwrap_or(false);
+            let unexplained_prev = self
+                .prev_fold
+                .lore
+                .keys()
+                .filter(|pos| started(data_keeper.new_to_prev_pos.get_by_right(*pos)))
+                .count();
+            let unexplained_current = self
+                .current_fold
+                .lore
+                .keys()
+                .filter(|pos| started(data_keeper.new_to_current_pos.get_by_right(*pos)))
+                .count();
+            if unexplained_prev + unexplained_current > 0 {
+                air_log_targets::probe::hit(
+                    "fold_end_leftover_lore_unexplained",
+                    format!("prev={unexplained_prev} current={unexplained_current}"),
+                );
+            }
         }
         let fold_result = FoldResult { lore: self.result_lore };
         let state = ExecutedState::Fold(fold_result);
